@@ -11,6 +11,8 @@ C07 magnify m1 m2                   -> ok w d        weight factor |m1 m2| and s
 C07 magnifyold m1 m2                -> ok d | err value   (unrepaired: sqrt of the signed product)
 C07 mask fwd|bwd [E] [t] [w]        -> ok [E'] pin pout  Apodizer / any phase-only element: E·t (E·conj t), total power
                                                          before / after **with the input weights** (complex lists are flat re,im,…)
+C07 maskpol tensor [t] [J] [S] | vector [t] [E]  -> ok [I',Q',U',V',I,Q,U,V]  Stokes vector of one pixel after / before a scalar
+                                                         transmission t (Jones-matrix pixel with input Stokes vector S / Jones-vector pixel)
 C07 fibre [E] [m] [w]               -> ok [a] pin mnorm [back]   a = Σ conj(E) w m, Σ|E|²w, Σ|m|²w, power of a·m
 C07 knife N M start [mask] [apod] [lyot] [x] -> ok [row']  lyot·crop(ifft(fft(pad(x·apod))·mask)), M ∣ 4 (Gaussian kernels)
 C07 knifet N M start [ker] [mask] [apod] [lyot] [x] -> ok [row']  the same `knifeRow` for any M > 0, the forward kernel
@@ -61,6 +63,22 @@ def step (st : St) : List String → St × String
       let out := if dir == "fwd" then maskFwd (cxFn tt) (cxFn e) else maskBwd (cxFn tt) (cxFn e)
       (st, s!"ok {showRatList (flat out n)} {showRat (power (cxFn e) (ratFn w) n)} {showRat (power out (ratFn w) n)}")
     | _, _, _ => (st, "bad-op")
+  | ["maskpol", "tensor", t, j, sv] =>
+    match parseRatList? t, parseRatList? j, parseRatList? sv with
+    | some [tr, ti], some [a, b, c, d, e, f, g, h], some [s0, s1, s2, s3] =>
+      let e : J2 Rat := ⟨⟨a, b⟩, ⟨c, d⟩, ⟨e, f⟩, ⟨g, h⟩⟩
+      let o := jonesStokes (maskJ ⟨tr, ti⟩ e) ⟨s0, s1, s2, s3⟩
+      let i := jonesStokes e ⟨s0, s1, s2, s3⟩
+      (st, "ok " ++ showRatList [o.i, o.q, o.u, o.v, i.i, i.q, i.u, i.v])
+    | _, _, _ => (st, "bad-op")
+  | ["maskpol", "vector", t, ev] =>
+    match parseRatList? t, parseRatList? ev with
+    | some [tr, ti], some [a, b, c, d] =>
+      let e : V2 Rat := ⟨⟨a, b⟩, ⟨c, d⟩⟩
+      let o := vecStokes (maskV ⟨tr, ti⟩ e)
+      let i := vecStokes e
+      (st, "ok " ++ showRatList [o.i, o.q, o.u, o.v, i.i, i.q, i.u, i.v])
+    | _, _ => (st, "bad-op")
   | ["fibre", e, m, w] =>
     match parseCx? e, parseCx? m, parseRatList? w with
     | some e, some m, some w =>
